@@ -28,6 +28,7 @@ mod c11;
 mod c11x;
 mod c12;
 mod c12x;
+mod c12j;
 mod c12fs;
 mod c13;
 mod c13x;
